@@ -97,7 +97,16 @@ for variant, (cls, has_prices, has_alpha, has_mu) in VARIANTS.items():
     }
     if variant == 'gamma_profile':
         kw['raises'] = {'BiogemeError': f"{GAMMA} is None and app('numpy.isclose', the_consumption, 0.0)"}
-    contract(f'{cls}.utility_one_alternative', 'C18', types=TYPES, requires=domain(variant, True), ensures=ens,
+    req = domain(variant, True)
+    if variant == 'translated':
+        # m3 (mutation review): the code has a branch of its own for the outside good at zero consumption; the reference
+        # utility exp(V + e + a*log x) has the limit 0 there (a > 0), which is what the branch must return.  The
+        # precondition no longer excludes that point, and the clause below pins it.
+        req['x_dom'] = 'the_consumption >= 0'
+        ens['value_outside_good'] = (f'implies({GAMMA} is None and the_consumption > 0, '
+                                     f'result == {text(u_out, variant, "the_consumption")})')
+        ens['value_outside_good_at_zero'] = f'implies({GAMMA} is None and the_consumption == 0, result == 0.0)'
+    contract(f'{cls}.utility_one_alternative', 'C18', types=TYPES, requires=req, ensures=ens,
              replay=REPLAY.format(variant=variant, what='utility'), **kw)
 
     # ---- derivative_utility_one_alternative == dU/dx ----
@@ -147,23 +156,90 @@ for variant, (cls, has_prices, has_alpha, has_mu) in VARIANTS.items():
 # forecast_bisection_one_draw: partial correctness of the bracket
 # ---------------------------------------------------------------------------------------------
 MD = 'biogeme.mdcev.mdcev.Mdcev.'
-contract(MD + 'identification_chosen_alternatives', 'C18', verify=False, types={'total_budget': 'float', 'epsilon': 'vec'},
+# m3 (mutation review): the two assumed callees RECORD what they were asked / what they answered in ghost fields of the
+# model (no real code reads them), so that the contract of the bisection can speak about the multiplier and the choice
+# set of the LAST call of optimal_consumption: the postcondition sees parameters and fields only, not locals.
+field_type('Mdcev', 'alternatives', 'set[int]')
+field_type('Mdcev', 'ghost_dual', 'float')
+field_type('Mdcev', 'ghost_set', 'set[int]')
+field_type('Mdcev', 'ghost_consumption', 'dict[int, float]')
+field_type('Mdcev', 'ghost_values', 'dict[int, float]')
+contract(MD + 'identification_chosen_alternatives', 'C18', verify=False, pure=True,
+         types={'total_budget': 'float', 'epsilon': 'vec'},
          returns='tuple[set[int], float, float]',
-         note='assumed: returns some (chosen set, lower bound, upper bound); its quality is checked by the bounded KKT stand-in')
-contract(MD + 'optimal_consumption', 'C18', verify=False, types={'dual_variable': 'float', 'epsilon': 'vec'},
+         note='assumed (A-VALUE): the (chosen set, lower bound, upper bound) it returns is a deterministic function of the model, the '
+              'row, the budget and the draw, so that a specification can name it; its quality is checked by the bounded KKT stand-in')
+# what the identification step answers for the arguments of the bisection (specification name)
+ID = 'self.identification_chosen_alternatives(one_row_of_database, total_budget, epsilon)'
+contract(MD + 'optimal_consumption', 'C18', verify=False,
+         types={'chosen_alternatives': 'set[int]', 'dual_variable': 'float', 'epsilon': 'vec'},
          returns='dict[int, float]',
-         note='assumed: returns some dict of consumptions (monotonicity in the multiplier is not needed for the bracket)')
+         modifies=['self.ghost_dual', 'self.ghost_set', 'self.ghost_consumption', 'self.ghost_values'],
+         ensures={'ghost_records_the_call': 'self.ghost_dual == dual_variable and same(self.ghost_set, chosen_alternatives) and '
+                                            'same(self.ghost_consumption, result)',
+                  'one_entry_per_chosen_alternative': "forall(lambda k: (k in result) == (k in chosen_alternatives), ty='int')",
+                  # the total consumption is a function of the arguments (specification name c18_total, pyvc/libext/m3_c18_sets.py)
+                  'total_is_a_function_of_the_arguments':
+                      "sum(result.values()) == app('c18_total', self, chosen_alternatives, dual_variable, epsilon, one_observation)",
+                  # the dict is built by this call (a dict comprehension): not the set it was given, not an older object
+                  'new_dict': 'c10c_new_object(result) and result is not chosen_alternatives',
+                  # a ghost COPY of the answer (another object), so that the caller's contract can say that the
+                  # consumptions of the chosen alternatives are returned as computed
+                  'ghost_copy_of_the_answer': "self.ghost_values is not result and "
+                                              "forall(lambda k: implies(k in chosen_alternatives, k in self.ghost_values and "
+                                              "result[k] == self.ghost_values[k]), ty='int')"},
+         note='assumed: returns a dict with one consumption per alternative of the given set (the dict comprehension of the real '
+              'body); the call is recorded in ghost fields (monotonicity in the multiplier is not needed for the bracket)')
+
+def _total(d):
+    return f"app('c18_total', self, {ID}[0], {d}, epsilon, one_row_of_database)"
+
 
 _STOP = ("(upper_bound - lower_bound <= tolerance_dual or "
          "app('numpy.abs', total_consumption - total_budget) <= tolerance_budget)")
 contract(MD + 'forecast_bisection_one_draw', 'C18',
          types={'total_budget': 'float', 'epsilon': 'vec', 'tolerance_dual': 'float', 'tolerance_budget': 'float'},
          returns='dict[int, float]',
-         may_raise=['ValueError', 'BiogemeError'],
+         # refused IFF the identified bracket is empty (lower bound above upper bound)
+         raises={'BiogemeError': f'{ID}[1] > {ID}[2]'},
+         may_raise=['ValueError'],
          invariants={1: {'clauses': {
              'bracket_ordered': 'lower_bound <= upper_bound',
              'stops_only_within_tolerance': f'continue_iterations or {_STOP}',
+             'inside_identified_bracket': f'{ID}[1] <= lower_bound and upper_bound <= {ID}[2]',
+             'identified_set_kept': f'same(chosen_alternatives, {ID}[0])',
+             # the bisection step: an end of the bracket only moves to a multiplier that was tried, the upper end to one that
+             # underspends the budget, the lower end to one that overspends it ...
+             'upper_end_underspends_or_initial': f'upper_bound == {ID}[2] or {_total("upper_bound")} < total_budget',
+             'lower_end_overspends_or_initial': f'lower_bound == {ID}[1] or {_total("lower_bound")} > total_budget',
+             # ... and the multiplier tried last DID become the end on its side (unless it meets the budget exactly)
+             'last_multiplier_became_an_end':
+                 f'_k == 0 or ({_total("self.ghost_dual")} < total_budget and upper_bound == self.ghost_dual) or '
+                 f'({_total("self.ghost_dual")} > total_budget and lower_bound == self.ghost_dual) or '
+                 f'{_total("self.ghost_dual")} == total_budget',
+             'total_is_of_last_multiplier': f'_k == 0 or total_consumption == {_total("self.ghost_dual")}',
+         }}, 2: {'clauses': {
+             'same_dict': 'optimal_consumption is self.ghost_consumption and self.ghost_values is not optimal_consumption and '
+                          'self.ghost_set is not optimal_consumption and self.alternatives is not optimal_consumption',
+             'listed_so_far': 'forall(lambda q: set_at(self.alternatives, q) in optimal_consumption, 0, _k)',
+             'only_alternatives_added': "forall(lambda k: implies(k in optimal_consumption, k in self.ghost_set or k in self.alternatives), ty='int')",
+             'chosen_kept': "forall(lambda k: implies(k in self.ghost_set, k in optimal_consumption and "
+                            "optimal_consumption[k] == self.ghost_values[k]), ty='int')",
+             'others_zero': "forall(lambda k: implies(k in optimal_consumption and k not in self.ghost_set, optimal_consumption[k] == 0), ty='int')",
          }}},
+         ensures={
+             # the consumptions returned are those of ONE call of optimal_consumption, made for the identified choice set at a
+             # multiplier inside the identified bracket
+             'multiplier_inside_identified_bracket': f'{ID}[1] <= self.ghost_dual and self.ghost_dual <= {ID}[2]',
+             'computed_for_the_identified_set': f'same(self.ghost_set, {ID}[0])',
+             'returns_that_consumption': 'result is self.ghost_consumption',
+             # ... completed over the alternatives of the model: every alternative has an entry, the chosen ones keep the computed
+             # consumption, the others get 0, nothing else is added
+             'every_alternative_listed': "forall(lambda k: implies(k in self.alternatives, k in result), ty='int')",
+             'chosen_alternatives_as_computed': "forall(lambda k: implies(k in self.ghost_set, k in result and result[k] == self.ghost_values[k]), ty='int')",
+             'other_alternatives_zero': "forall(lambda k: implies(k in result and k not in self.ghost_set, result[k] == 0), ty='int')",
+             'nothing_else_listed': "forall(lambda k: implies(k in result, k in self.ghost_set or k in self.alternatives), ty='int')",
+         },
          check_frame=False,      # the dict returned by the (assumed) callee is not known to be fresh
          replay="""
 # the bracket of the bisection on the real code: forecasts must exhaust the budget and satisfy the KKT conditions
